@@ -166,6 +166,20 @@ pub fn run_lossy_rt(case: &Value, _seed: u64) -> Outcome {
         let items = expected_items(case, &texts);
         let entries: Vec<Vec<RelExp>> = items.iter().filter_map(|i| if let ItemExp::Entry(e) = i { Some(e.clone()) } else { None }).collect();
         let value = lossy::Relations(entries.iter().map(|e| e.iter().filter_map(to_lossy).collect()).collect());
+        // the same relations assembled through the lossy BUILDER (one call per part, one `profile` call per group)
+        for e in entries.iter() { for r in e.iter() {
+            if let Some(lit) = to_lossy(r) {
+                let built = guarded("lossy::RelationBuilder", || {
+                    let mut b = lossy::Relation::build(&r.name);
+                    if let Some((c, v)) = &lit.version { b = b.version(c.clone(), &v.to_string()); }
+                    if let Some(a) = &lit.archqual { b = b.archqual(a); }
+                    if let Some(a) = &lit.architectures { b = b.architectures(a.iter().map(|x| x.as_str()).collect()); }
+                    for g in &lit.profiles { b = b.profile(g.clone()); }
+                    b.build()
+                });
+                match built { Ok(b) => if b != lit { o.v("C14", "lossy_roundtrip", "lossy::RelationBuilder", "mismatch", &feats, &lit.to_string(), format!("built {:?} != {:?}", b, lit)); }, Err(m) => o.v("C14", "lossy_roundtrip", "lossy::RelationBuilder", "panic", &feats, &lit.to_string(), m) }
+            }
+        } }
         o.evals += 1;
         let printed = match guarded("lossy::Relations::to_string", || value.to_string()) { Ok(p) => p, Err(msg) => { o.v("C14", "print", "lossy::Relations Display", "panic", &feats, "", msg); continue; } };
         // 1. the lossy reader turns the text back into an equal value
